@@ -139,6 +139,12 @@ class Pool:
         self.image = np.arange(30 * 40, dtype=float).reshape(30, 40)
         self.pix = PixCoord(np.linspace(-5, 30, 36).reshape(6, 6), np.linspace(0, 25, 36).reshape(6, 6))
         self.skyc = self.wcs.pixel_to_world(self.pix.x.ravel(), self.pix.y.ravel())
+        # the same kind of query with integer-typed coordinates (unsigned and signed): the caller's object keeps its arrays AND their types
+        self.pix_u = PixCoord(np.arange(4, 28, dtype=np.uint16).reshape(4, 6), (np.arange(24, dtype=np.uint16).reshape(4, 6) * 7) % 23)
+        self.pix_i = PixCoord(np.arange(-3, 21, dtype=np.int32), (np.arange(24, dtype=np.int32) * 5) % 19)
+        # options a caller keeps: a FITS header handed to the writer
+        from astropy.io import fits
+        self.header = fits.Header([('OBSERVER', 'verif'), ('OBJECT', 'M 31')])
 
         def mv():
             m = RegionMeta({'label': rnd.choice(['a b', 'x']), 'tag': rnd.choice([[], ['t1'], ['t2', 't1'], ['zz', 'group a', 'b1']])}) if rnd.random() < 0.7 else RegionMeta()
@@ -221,7 +227,8 @@ class Pool:
 
     def fingerprint(self):
         return (tuple((k, fp(v)) for k, v in sorted(self.objs.items())), fp(self.parts), fp(self.other_pix), fp(self.other_sky),
-                fp(self.image), fp(self.pix), fp(self.skyc), h(self.wcs.to_header_string()), fp(self.rot_angle), fp(self.rot_center), fp(self.foreign['fits_table']))
+                fp(self.image), fp(self.pix), fp(self.skyc), h(self.wcs.to_header_string()), fp(self.rot_angle), fp(self.rot_center), fp(self.foreign['fits_table']),
+                fp(self.pix_u), fp(self.pix_i), self.header.tostring(sep='|'))
 
     # ---- operations -------------------------------------------------------------------------------
     def mutate(self, o):
@@ -273,7 +280,8 @@ class Pool:
             return out
         ispix = lambda r: isinstance(r, R.PixelRegion)  # noqa
         if op == 'contains':
-            return each(lambda r: r.contains(self.pix) if ispix(r) else r.contains(self.skyc, self.wcs))
+            q = [self.pix, self.pix_u, self.pix_i][k % 3]
+            return each(lambda r: r.contains(q) if ispix(r) else r.contains(self.skyc, self.wcs))
         if op == 'to_mask':
             mode, sub = [('center', 1), ('subpixels', 3), ('exact', 1)][k % 3]
             return each(lambda r: (r if ispix(r) else r.to_pixel(self.wcs)).to_mask(mode=mode, subpixels=sub))
@@ -301,7 +309,10 @@ class Pool:
             path = os.path.join(d, 'out.' + {'ds9': 'reg', 'crtf': 'crtf', 'fits': 'fits'}[fmt])
             try:
                 try:
-                    obj.write(path, format=fmt, overwrite=True)
+                    if fmt == 'fits' and CATS.index(o) % 2 == 0:
+                        obj.write(path, format=fmt, overwrite=True, header=self.header)      # the caller's own header object
+                    else:
+                        obj.write(path, format=fmt, overwrite=True)
                     with open(path, 'rb') as f:
                         data = f.read()
                     if fmt == 'fits':      # the header carries no date, but compare the parsed table instead of bytes
